@@ -1,6 +1,7 @@
 import OV.Lemmas.C07Splice
 import OV.Lemmas.C07Eval
 import OV.Lemmas.C07Wf
+import OV.Lemmas.C07Term
 /-!
   C07 — applying a rewrite replaces only the match and leaves a valid, equivalent graph.
 
@@ -492,6 +493,178 @@ theorem applyRules_equiv {V} (sem : Sem V) (d : Nat) (rules : List Rule) (kind :
     (fun _ _ _ => rfl) (fun _ _ _ h1 h2 outer args => (h2 outer args).trans (h1 outer args)) hstep
     (fun st node st' subs' g1 hr => writeBack_equiv sem d g1 node.id subs' (hrec st node st' subs' g1 hr))
     fuel st lo g cur st' lo' g' h
+
+/-! ## Termination of one pass under *no re-match* (C07-D2 is the refutation without it)
+
+`base` separates the ids of the nodes the pass starts with (`< base`) from the ids of nodes created
+by replacements (`≥ base`).  `StepShape` is what one application does to the list of node ids — the
+shape `applyAt` gives it — together with **NoRematch**: a rule only ever applies at an original
+node.  `K` bounds the number of nodes one application inserts. -/
+
+structure StepShape (kind : Kind) (rules : List Rule) (base K : Nat) : Prop where
+  applied : ∀ st lo (g : Graph) (node : Node) st' lo' (g' : Graph) first,
+    node ∈ g.nodes → g.ids.Nodup →
+    tryRules kind rules st lo g node = .ok (.applied st' lo' g' first) →
+    node.id < base ∧ ∃ (new : List Nat) (keep : Nat → Bool), new.length ≤ K ∧ new.Nodup ∧
+      (∀ i ∈ new, base ≤ i ∧ i ∉ g.ids ∧ keep i = true) ∧
+      g'.ids = (insAfterIds g.ids node.id new).filter keep ∧ first = new.head?.getD 0
+  noFuel : ∀ st lo g node, tryRules kind rules st lo g node ≠ .error .fuel
+
+theorem recurseBodies_noFuel (recurse : PassSt → Graph → Except Err (PassSt × Graph))
+    (h : ∀ st b, recurse st b ≠ .error .fuel) :
+    ∀ (subs : List (String × Graph)) st, recurseBodies recurse st subs ≠ .error .fuel := by
+  intro subs
+  induction subs with
+  | nil => intro st; simp [recurseBodies]
+  | cons p rest ih =>
+    intro st hh
+    obtain ⟨k, b⟩ := p
+    simp only [recurseBodies] at hh
+    split at hh
+    · rename_i e he
+      cases hh
+      exact h st b he
+    · split at hh
+      · rename_i e he
+        cases hh
+        exact ih _ he
+      · cases hh
+
+theorem ids_writeBack (g : Graph) (cur : Nat) (c : List Name) (subs' : List (String × Graph)) :
+    (g.setNodes (g.nodes.map fun n => if n.id == cur then n.setBodies c subs' else n)).ids = g.ids := by
+  cases g with
+  | mk ins inits nodes outs =>
+    simp only [Graph.ids, Graph.setNodes, Graph.nodes, List.map_map]
+    apply List.map_congr_left
+    intro n _
+    simp only [Function.comp]
+    split
+    · cases n; rfl
+    · rfl
+
+theorem nodeById_spec (g : Graph) (cur : Nat) (node : Node) (h : nodeById g cur = some node) :
+    node ∈ g.nodes ∧ node.id = cur := by
+  unfold nodeById at h
+  exact ⟨List.mem_of_find?_eq_some h, by simpa using List.find?_some h⟩
+
+/-- **One pass terminates under NoRematch**: with fuel above the potential `mu` — the number of
+nodes at or after the cursor, original ones counted `K + 1` times — `passLoop` never runs out of
+fuel: every node the pass starts with is visited at most once, every replacement node once.
+(Errors of the rules themselves — opset clash, as_function — are other outcomes; the recursion
+into bodies is assumed not to run out of fuel, which is this theorem one level down.) -/
+theorem passLoop_terminates (rules : List Rule) (kind : Kind)
+    (recurse : PassSt → Graph → Except Err (PassSt × Graph)) (base K : Nat) (hb : 0 < base)
+    (shape : StepShape kind rules base K) (hrec : ∀ st b, recurse st b ≠ .error .fuel) :
+    ∀ (fuel : Nat) (st : PassSt) (lo : List (String × Nat)) (g : Graph) (cur : Option Nat),
+      g.ids.Nodup → (∀ i ∈ g.ids, 0 < i) → mu base K g.ids cur < fuel →
+      passLoop rules kind recurse fuel st lo g cur ≠ .error .fuel := by
+  intro fuel
+  induction fuel with
+  | zero => intro st lo g cur _ _ h; omega
+  | succ f ih =>
+    intro st lo g cur hnd hpos hmu hh
+    cases cur with
+    | none => simp [passLoop] at hh
+    | some c =>
+      simp only [passLoop] at hh
+      split at hh
+      · cases hh
+      · rename_i node hnode
+        obtain ⟨hmem, hid⟩ := nodeById_spec g c node hnode
+        have hcids : c ∈ g.ids := by
+          rw [← hid]; exact List.mem_map.mpr ⟨node, hmem, rfl⟩
+        obtain ⟨pre, post, hsplit, hcpre⟩ := split_first c g.ids hcids
+        have hnd' : (pre ++ c :: post).Nodup := hsplit ▸ hnd
+        have htodo : todo g.ids (some c) = c :: post := by
+          rw [hsplit]; exact dropWhile_split c pre post hcpre
+        split at hh
+        · rename_i e he
+          cases hh
+          exact shape.noFuel _ _ _ _ he
+        · rename_i step hstep
+          cases step with
+          | applied st1 lo1 g1 first =>
+            simp only at hh
+            split at hh
+            · rename_i e he
+              cases hh
+              exact recurseBodies_noFuel recurse hrec _ _ he
+            · rename_i st2 subs' _
+              obtain ⟨hlt, new, keep, hK, hnewnd, hnewp, hids', hfirst⟩ :=
+                shape.applied _ _ _ _ _ _ _ _ hmem hnd hstep
+              rw [hid] at hlt hids'
+              have hfresh : ∀ i ∈ new, i ∉ pre ++ c :: post := fun i hi => hsplit ▸ (hnewp i hi).2.1
+              have hkeep : ∀ i ∈ new, keep i = true := fun i hi => (hnewp i hi).2.2
+              have hge : ∀ i ∈ new, base ≤ i := fun i hi => (hnewp i hi).1
+              have hpos' : ∀ i ∈ pre ++ c :: post, 0 < i := hsplit ▸ hpos
+              have ht := todo_applied pre post new c keep hnd' hpos' hfresh hkeep
+              simp only at ht
+              rw [← hsplit, ← hids', ← hfirst] at ht
+              refine ih _ _ _ _ ?_ ?_ ?_ hh
+              · rw [ids_writeBack, hids', hsplit]
+                exact ids_applied_nodup pre post new c keep hnd' hnewnd hfresh
+              · rw [ids_writeBack, hids', hsplit]
+                exact ids_applied_pos pre post new c keep base hb hpos' hge
+              · rw [ids_writeBack]
+                have := mu_step_applied base K c post new keep g.ids g1.ids _ hlt hK hge htodo ht
+                omega
+          | noMatch st1 lo1 =>
+            simp only at hh
+            split at hh
+            · rename_i e he
+              cases hh
+              exact recurseBodies_noFuel recurse hrec _ _ he
+            · have ht := todo_successor_same pre post c hnd'
+              rw [← hsplit] at ht
+              refine ih _ _ _ _ ?_ ?_ ?_ hh
+              · rw [ids_writeBack]; exact hnd
+              · rw [ids_writeBack]; exact hpos
+              · rw [ids_writeBack]
+                have := mu_step_same base K c post g.ids _ htodo ht
+                omega
+          | skipped st1 lo1 =>
+            simp only at hh
+            split at hh
+            · rename_i e he
+              cases hh
+              exact recurseBodies_noFuel recurse hrec _ _ he
+            · have ht := todo_successor_same pre post c hnd'
+              rw [← hsplit] at ht
+              refine ih _ _ _ _ ?_ ?_ ?_ hh
+              · rw [ids_writeBack]; exact hnd
+              · rw [ids_writeBack]; exact hpos
+              · rw [ids_writeBack]
+                have := mu_step_same base K c post g.ids _ htodo ht
+                omega
+
+/-- non-vacuity: the hypotheses of `passLoop_terminates` are satisfiable (an empty rule set never
+applies), and the theorem then bounds the pass over `exHost` (4 nodes: potential 4 + K·4) -/
+example : StepShape .main [] 100 3 :=
+  ⟨fun _ _ _ _ _ _ _ _ _ _ h => by simp [tryRules] at h, fun _ _ _ _ h => by simp [tryRules] at h⟩
+
+example (recurse : PassSt → Graph → Except Err (PassSt × Graph)) (hrec : ∀ st b, recurse st b ≠ .error .fuel)
+    (st : PassSt) (lo : List (String × Nat)) :
+    passLoop [] .main recurse 17 st lo exHost (some 1) ≠ .error .fuel :=
+  passLoop_terminates [] .main recurse 100 3 (by decide)
+    ⟨fun _ _ _ _ _ _ _ _ _ _ h => by simp [tryRules] at h, fun _ _ _ _ h => by simp [tryRules] at h⟩
+    hrec 17 st lo exHost (some 1) (by decide) (by decide) (by decide)
+
+/-- The shape part of `StepShape` is what the model's splice does: the id list after `applyAt` is
+the old one with the new nodes' ids inserted after the root, filtered by "not a matched node" when
+the rule removes nodes (renaming, name transfer and the retiring of kept producers never touch
+ids or order). -/
+theorem applyAt_ids (d : Nat) (g : Graph) (m : Match) (new : List Node) (outs : List NewOut) (rm : Bool) :
+    (applyAt d g m new outs rm).ids =
+      (insAfterIds g.ids m.root (new.map (·.id))).filter (fun i => !(rm && m.nodes.contains i)) := by
+  unfold applyAt
+  rw [renamePassthru_ids]
+  have e : ∀ ns, ((retireOld g m rm).setNodes ns).ids = ns.map (·.id) := by
+    intro ns; cases rm <;> cases g <;> rfl
+  rw [e, spliceNodes_ids, transferNames_ids]
+  have := retireOld_ids g m rm
+  unfold Graph.ids at this
+  rw [this]
+  rfl
 
 /-! ## Signature -/
 
